@@ -29,7 +29,8 @@ CONSTANTS Keys,        \* e.g. {1, 2}
           L1, L2,      \* their levels: "RC" | "RR"
           WithR, WithW, WithA, WithG,
           WKey,        \* key of the autocommit writer and reader
-          OldVersions  \* committed versions per key before the actors start (>= 1)
+          OldVersions, \* committed versions per key before the actors start (>= 1)
+          RangeDraw    \* TRUE: a commit draws its publishing numbers in one step (sequence.NextN); FALSE: one draw per key (as found)
 
 VARIABLES seq, main, crec, files,       \* counter, committed versions per key (<<[seq, val]>>), content records, content files
           reg, regOrder,                \* registry: tx -> begin seq, and its order
@@ -114,8 +115,16 @@ CStep(c) ==
      /\ IF loc[c].conflict THEN Go(c, "utx.unlink") /\ SetLoc(c, "i", -1)       \* early return, the deferred function is next
                            ELSE Go(c, "p2.draw") /\ SetLoc(c, "i", 1)
      /\ UNCHANGED <<seq, main, crec, files, reg, regOrder, lock, res, cmlog>>
-  \/ \* publishing draw of key i; after the last one: Badger commit and publication, all in this segment
-     /\ pc[c] = "p2.draw" /\ seq' = seq + 1
+  \/ \* RangeDraw: the publishing numbers of all keys are drawn in one step (sequence.NextN), then Badger commit and publication
+     /\ RangeDraw /\ pc[c] = "p2.draw" /\ seq' = seq + n
+     /\ main' = Fn(Keys, LAMBDA kk : IF kk \in WS(c)
+                                     THEN Append(main[kk], [seq |-> seq + (CHOOSE j \in 1..n : WSeq(c)[j] = kk), val |-> ValOf(c)])
+                                     ELSE main[kk])
+     /\ cmlog' = Append(cmlog, [ks |-> WS(c), val |-> ValOf(c)])
+     /\ Go(c, "utx.unlink") /\ loc' = Touch(WKey, IF WKey \in WS(c) THEN ValOf(c) ELSE LatestVal(WKey))
+     /\ UNCHANGED <<crec, files, reg, regOrder, lock, res>>
+  \/ \* as found: publishing draw of key i; after the last one: Badger commit and publication, all in this segment
+     /\ ~RangeDraw /\ pc[c] = "p2.draw" /\ seq' = seq + 1
      /\ LET k == WSeq(c)[loc[c].i]
             m1 == [main EXCEPT ![k] = Append(@, [seq |-> seq + 1, val |-> ValOf(c)])]
         IN IF loc[c].i < n
